@@ -839,6 +839,14 @@ class SymReal:
     def __float__(self):
         raise HarnessError('float() of a symbolic real: realisation of reals is not supported')
 
+    def __format__(self, spec):
+        if engine().format_mode == 'placeholder':
+            return '<sym-real>'
+        raise HarnessError('format() of a symbolic real (set format_mode="placeholder" if it is logging only)')
+
+    def __str__(self):
+        return '<sym-real>'
+
     def _b(self, o):
         if isinstance(o, np.ndarray):
             return NotImplemented
